@@ -38,7 +38,7 @@ struct Route {
 
 #[derive(Clone, Debug)]
 enum Script {
-    Reply { a: Vec<u32>, n: Vec<u32>, d: Vec<u32>, rdlen: usize, tc: bool, wrong_id: bool },
+    Reply { a: Vec<u32>, n: Vec<u32>, d: Vec<u32>, rdlen: usize, tc: bool, wrong_id: bool, rcode: u8 },
     Garbage,
     Silent,
 }
@@ -156,8 +156,8 @@ fn script_toks(s: &Script) -> Vec<u64> {
     match s {
         Script::Garbage => vec![1],
         Script::Silent => vec![2],
-        Script::Reply { a, n, d, rdlen, tc, wrong_id } => {
-            let mut v = vec![0, *rdlen as u64, *tc as u64, *wrong_id as u64];
+        Script::Reply { a, n, d, rdlen, tc, wrong_id, rcode } => {
+            let mut v = vec![3, *rcode as u64, *rdlen as u64, *tc as u64, *wrong_id as u64];
             for l in [a, n, d] {
                 v.push(l.len() as u64);
                 v.extend(l.iter().map(|&x| x as u64));
@@ -176,7 +176,7 @@ struct UpState {
     conns: Mutex<Vec<tokio::task::JoinHandle<()>>>,
 }
 
-fn build_reply(q: &[u8], a: &[u32], n: &[u32], d: &[u32], rdlen: usize, tc: bool, wrong_id: bool) -> Option<Vec<u8>> {
+fn build_reply(q: &[u8], a: &[u32], n: &[u32], d: &[u32], rdlen: usize, tc: bool, wrong_id: bool, rcode: u8) -> Option<Vec<u8>> {
     if q.len() < 17 {
         return None;
     }
@@ -188,7 +188,7 @@ fn build_reply(q: &[u8], a: &[u32], n: &[u32], d: &[u32], rdlen: usize, tc: bool
     let id = u16::from_be_bytes([q[0], q[1]]);
     let id = if wrong_id { id.wrapping_add(1) } else { id };
     let mut v = id.to_be_bytes().to_vec();
-    v.extend([0x81 | if tc { 2 } else { 0 }, 0x80, 0, 1]);
+    v.extend([0x81 | if tc { 2 } else { 0 }, 0x80 | (rcode & 15), 0, 1]);
     v.extend((a.len() as u16).to_be_bytes());
     v.extend((n.len() as u16).to_be_bytes());
     v.extend((d.len() as u16).to_be_bytes());
@@ -208,11 +208,11 @@ fn answer(st: &UpState, q: &[u8], over_tcp: bool) -> Option<Vec<u8>> {
     let s = st.script.lock().unwrap().clone();
     match s {
         // over TCP the scripted upstream always answers a well-formed message
-        Script::Silent | Script::Garbage if over_tcp => build_reply(q, &[], &[], &[], 4, false, false),
+        Script::Silent | Script::Garbage if over_tcp => build_reply(q, &[], &[], &[], 4, false, false, 0),
         Script::Silent => None,
         Script::Garbage => Some(vec![q[0], q[1], 0x81]),
-        Script::Reply { a, n, d, rdlen, tc, wrong_id } => {
-            build_reply(q, &a, &n, &d, rdlen, tc && !over_tcp, wrong_id && !over_tcp)
+        Script::Reply { a, n, d, rdlen, tc, wrong_id, rcode } => {
+            build_reply(q, &a, &n, &d, rdlen, tc && !over_tcp, wrong_id && !over_tcp, rcode)
         }
     }
 }
@@ -407,6 +407,8 @@ async fn run_history(h: &Hist) -> Option<Toks> {
 }
 
 // ---- generator ----------------------------------------------------------------------------------
+/// rcodes of scripted upstream replies: every one of 0..5 and a few beyond, with records or without
+const RCODES: &[u8] = &[0, 0, 0, 0, 0, 1, 2, 2, 3, 3, 4, 5, 6, 9, 15];
 fn lab(s: &str) -> Vec<u8> {
     s.as_bytes().to_vec()
 }
@@ -551,9 +553,9 @@ fn gen_hist(r: &mut Rng, stats: &mut Stats, thorough: bool) -> Hist {
         let script = match r.below(14) {
             0 => Script::Garbage,
             1 if thorough && r.chance(1, 6) => Script::Silent,
-            2 => Script::Reply { a: vec![], n: vec![], d: vec![], rdlen: 4, tc: false, wrong_id: false },
+            2 => Script::Reply { a: vec![], n: vec![], d: vec![], rdlen: 4, tc: false, wrong_id: false, rcode: *r.pick(RCODES) },
             _ => {
-                let ttl = |r: &mut Rng| *r.pick(&[1u32, 2, 3, 60, 600, 0, 86400]);
+                let ttl = |r: &mut Rng| *r.pick(&[1u32, 1, 2, 3, 7, 8, 9, 30, 60, 600, 0, 86400]);
                 let big = r.chance(1, 4);
                 Script::Reply {
                     a: (0..r.range(1, 3)).map(|_| ttl(r).max(1)).collect(),
@@ -562,6 +564,7 @@ fn gen_hist(r: &mut Rng, stats: &mut Stats, thorough: bool) -> Hist {
                     rdlen: if big { *r.pick(&[150usize, 200, 240]) } else { 4 },
                     tc: r.chance(1, 12),
                     wrong_id: r.chance(1, 14),
+                    rcode: *r.pick(RCODES),
                 }
             }
         };
@@ -679,8 +682,9 @@ fn parse_hist(toks: &[u64]) -> Option<Hist> {
         let script = match sc.first()? {
             1 => Script::Garbage,
             2 => Script::Silent,
-            _ => {
+            code => {
                 let mut k = Cur(&sc, 1);
+                let rcode = if *code == 3 { k.n()? as u8 } else { 0 };
                 let rdlen = k.n()? as usize;
                 let tc = k.n()? != 0;
                 let wrong_id = k.n()? != 0;
@@ -688,7 +692,7 @@ fn parse_hist(toks: &[u64]) -> Option<Hist> {
                 for _ in 0..3 {
                     l.push(k.nums()?.into_iter().map(|x| x as u32).collect::<Vec<u32>>());
                 }
-                Script::Reply { a: l[0].clone(), n: l[1].clone(), d: l[2].clone(), rdlen, tc, wrong_id }
+                Script::Reply { a: l[0].clone(), n: l[1].clone(), d: l[2].clone(), rdlen, tc, wrong_id, rcode }
             }
         };
         steps.push(Step { sleep_ms, client, port53: port == 53, tcp, query, script });
